@@ -80,7 +80,10 @@ LEVEL_TEXT = ('Theorems: the program regenerated from the current source equals 
               'unrelate of a pair withdraws exactly the links between the two objects in both directions and keeps the graph '
               'symmetric, in states whose relation lists hold distinguishable registered objects without duplicates -- hypotheses '
               'kept by relate and unrelate (unrelate_withdraws_exactly, unrelate_keeps_relations_symmetric, '
-              'relate_keeps_relation_lists); for the Introspector state machine, for every operation sequence: '
+              'relate_keeps_relation_lists); remove -- returning or raising part-way -- keeps them too, so they hold in EVERY '
+              'reachable state whose added / registered objects come from a pool of distinguishable introspectables, and the '
+              'unrelate theorem holds there without state hypotheses (remove_keeps_relation_lists, reachable_relation_lists, '
+              'unrelate_withdraws_exactly_reachable); for the Introspector state machine, for every operation sequence: '
               'relations are symmetric and exact, get returns the latest registration, remove erases the entry, disabled '
               'introspection records nothing, only executed actions are recorded -- the last four also restated about the '
               'regenerated program (..._generated).')
